@@ -319,6 +319,23 @@ class Ctx:
             p = subprocess.run(cmd, stdout=subprocess.PIPE, stderr=subprocess.STDOUT, text=True,
                                errors="replace", timeout=total_timeout, env=goenv())
         except subprocess.TimeoutExpired:
+            # the verdicts written so far still count: a change that makes many cases hang or crash uses up the whole
+            # budget, and what it did to the cases that were judged is evidence; without any failure among them the
+            # run stays inconclusive
+            partial = []
+            if os.path.exists(opath):
+                for line in open(opath):
+                    line = line.strip()
+                    if line:
+                        try:
+                            partial.append(json.loads(line))
+                        except ValueError:
+                            pass
+            if any(not r.get("ok") for r in partial):
+                self.note("harness run %s was stopped after %d s with %d of %s cases judged; their verdicts are used" % (
+                    name, total_timeout, len(partial), len(cases) if not isinstance(cases, str) else "?"))
+                partial.sort(key=lambda r: r["id"])
+                return partial
             raise Inconclusive("harness run timed out: " + " ".join(cmd))
         if p.returncode != 0:
             raise Inconclusive("harness run failed (%d): %s\n%s" % (p.returncode, " ".join(cmd), p.stdout[-4000:]))
